@@ -72,11 +72,25 @@ def dotdot(w, rng):
     w.export_arg = (b"lnk_up", b"..") + old
 
 
+def missing_export(w, rng):
+    """The export directory does not exist (nor does its parent): the run must fail and leave no trace - in particular it
+    must not create the export directory and its ancestors, which lie outside every export subtree."""
+    old = tuple(w.export)
+    for k in list(w.files):
+        if k[:len(old)] == old:
+            del w.files[k]
+    w.files = {k: v for k, v in w.files.items() if not (v[0] == "link" and tuple(v[1]) not in w.files)}
+    w.scans = [s for s in w.scans if tuple(s) != old] or [w.scans[0]]
+    w.scans = [s for s in w.scans if tuple(s[:len(old)]) != old] or [()]
+    w.export = (b"not-there", b"exp") if rng.random() < 0.5 else (b"nowhere",)
+    w.notes.pop("spell", None)
+
+
 correspondence, search, replay, ASSUMPTIONS = runbase.make(
     "C03", [oracles.c03],
-    [("std", 130, 1200, {}, None), ("overlap", 70, 800, {}, overlap), ("odd", 60, 500, {}, odd_names), ("dotdot", 24, 200, {}, dotdot),
+    [("std", 130, 1200, {}, None), ("overlap", 70, 800, {}, overlap), ("odd", 60, 500, {}, odd_names), ("dotdot", 24, 200, {}, dotdot), ("noexport", 16, 120, {}, missing_export),
      # the whole process under strace: no successful creating / modifying / renaming / removing system call on a path outside the sandbox
      ("traced", 16, 120, {}, None, lambda sc, w: {"trace": True})],
-    "generated worlds with bystander directories, the process' working directory / HOME / TMPDIR inside the sandbox and listed afterwards, a sample of runs under strace (every successful mutating system call must name a path inside the sandbox), an export argument spelled through a symbolic link and '..' (the kernel's parent differs from the textual one), scan directories overlapping / containing the export directory, both flag values; recursive before/after snapshot of the whole sandbox + every open mode from the fs-shim log; adversarial names are exercised at the loader (C10 stream) and here through documents that must not load",
+    "generated worlds with bystander directories, a missing export directory (nothing may be created), the process' working directory / HOME / TMPDIR inside the sandbox and listed afterwards, a sample of runs under strace (every successful mutating system call must name a path inside the sandbox), an export argument spelled through a symbolic link and '..' (the kernel's parent differs from the textual one), scan directories overlapping / containing the export directory, both flag values; recursive before/after snapshot of the whole sandbox + every open mode from the fs-shim log; adversarial names are exercised at the loader (C10 stream) and here through documents that must not load",
     "good_op: every mutating operation targets the export image of a non-padding segment or its parent directories; target_*_shape: lexically inside export/<hex>/Data; candidate/index opens are read-only (Generated.v obligations)",
     ["no symbolic link inside an export subtree redirects a path (lexical confinement)"])
